@@ -74,6 +74,25 @@ static void c2dhuge(long c) { int part = c % 4; c /= 4; int P = 1 + c % 3; c /= 
         for (size_t j = 0; j < i; j++) { const Rect& b = ch[j]; if (a.r0 < b.r1 && b.r0 < a.r1 && a.c0 < b.c1 && b.c0 < a.c1) vf_fail("huge 2d: two chunks overlap"); } }
     if (area != (unsigned __int128)R * C) vf_fail("huge 2d %llux%llu: the chunks do not cover the rectangle", R, C);
     vf_outcome("2dhuge part=%d P=%d shape=%ld chunks=%zu", part, P, c % 8, ch.size()); }
+// ---- every overload of parallel_for (range/body, index forms with and without step; no partitioner / simple / auto / static / affinity; with and without a context)
+static void covl(long c) { int P = 1 + c % 3; c /= 3; int ov = (int)(c % 30); c /= 30; int n = (int)(c % 7);
+    vtbb::init(P); std::map<int, int> hits; tbb::task_group_context ctx; tbb::affinity_partitioner ap; tbb::simple_partitioner sp; tbb::auto_partitioner aup; tbb::static_partitioner stp;
+    auto rb = [&](const tbb::blocked_range<int>& r) { if (r.empty()) vf_fail("overload %d: empty chunk", ov); for (int i = r.begin(); i < r.end(); i++) hits[i]++; vtbb::nested(); vtbb::interleave(); };
+    auto ib = [&](int i) { hits[i]++; vtbb::interleave(); };
+    tbb::blocked_range<int> R(0, n, 1); int form = ov / 10, k = ov % 10; bool wc = k >= 5; int pk = k % 5;   // pk: 0 none 1 simple 2 auto 3 static 4 affinity
+    std::vector<int> want;
+    if (form == 0) { for (int i = 0; i < n; i++) want.push_back(i);
+        if (!wc) { if (pk == 0) tbb::parallel_for(R, rb); else if (pk == 1) tbb::parallel_for(R, rb, sp); else if (pk == 2) tbb::parallel_for(R, rb, aup); else if (pk == 3) tbb::parallel_for(R, rb, stp); else tbb::parallel_for(R, rb, ap); }
+        else { if (pk == 0) tbb::parallel_for(R, rb, ctx); else if (pk == 1) tbb::parallel_for(R, rb, sp, ctx); else if (pk == 2) tbb::parallel_for(R, rb, aup, ctx); else if (pk == 3) tbb::parallel_for(R, rb, stp, ctx); else tbb::parallel_for(R, rb, ap, ctx); } }
+    else if (form == 1) { for (int i = 2; i < 2 + n; i++) want.push_back(i);
+        if (!wc) { if (pk == 0) tbb::parallel_for(2, 2 + n, ib); else if (pk == 1) tbb::parallel_for(2, 2 + n, ib, sp); else if (pk == 2) tbb::parallel_for(2, 2 + n, ib, aup); else if (pk == 3) tbb::parallel_for(2, 2 + n, ib, stp); else tbb::parallel_for(2, 2 + n, ib, ap); }
+        else { if (pk == 0) tbb::parallel_for(2, 2 + n, ib, ctx); else if (pk == 1) tbb::parallel_for(2, 2 + n, ib, sp, ctx); else if (pk == 2) tbb::parallel_for(2, 2 + n, ib, aup, ctx); else if (pk == 3) tbb::parallel_for(2, 2 + n, ib, stp, ctx); else tbb::parallel_for(2, 2 + n, ib, ap, ctx); } }
+    else { for (int i = 1; i < 1 + 3 * n; i += 3) want.push_back(i); int last = 1 + 3 * n - (n ? 1 : 0);   // step 3, last not on the grid
+        if (!wc) { if (pk == 0) tbb::parallel_for(1, last, 3, ib); else if (pk == 1) tbb::parallel_for(1, last, 3, ib, sp); else if (pk == 2) tbb::parallel_for(1, last, 3, ib, aup); else if (pk == 3) tbb::parallel_for(1, last, 3, ib, stp); else tbb::parallel_for(1, last, 3, ib, ap); }
+        else { if (pk == 0) tbb::parallel_for(1, last, 3, ib, ctx); else if (pk == 1) tbb::parallel_for(1, last, 3, ib, sp, ctx); else if (pk == 2) tbb::parallel_for(1, last, 3, ib, aup, ctx); else if (pk == 3) tbb::parallel_for(1, last, 3, ib, stp, ctx); else tbb::parallel_for(1, last, 3, ib, ap, ctx); } }
+    vtbb::finish(); if (hits.size() != want.size()) vf_fail("parallel_for overload %d (form %d, partitioner %d, context %d), %zu iterations expected, %zu distinct indices visited", ov, form, pk, wc, want.size(), hits.size());
+    for (int i : want) if (hits[i] != 1) vf_fail("parallel_for overload %d: index %d visited %d times", ov, i, hits[i]);
+    vf_outcome("ovl %d P=%d n=%d steals=%ld", ov, P, n, vtbb::stats().steals); }
 // ---- parallel_for_each
 static void cfe(long c) { int P = 1 + c % 3; c /= 3; int fwd = c % 2; c /= 2; int n = c % 6; c /= 6; int feed = c % 3;   // each item < feed adds item+10 (one level)
     vtbb::init(P); std::map<int, int> hits; auto body = [&](int x, tbb::feeder<int>& fd) { hits[x]++; if (x < feed) fd.add(x + 10); vtbb::nested(); vtbb::interleave(); };
@@ -91,10 +110,10 @@ static void cinv(long c) { int P = 1 + c % 3; c /= 3; int n = 2 + c % 9; vtbb::i
 struct Solid { int b, e; bool empty() const { return b >= e; } bool is_divisible() const { return false; } Solid(int b_, int e_) : b(b_), e(e_) {} Solid(Solid&, tbb::split) : b(0), e(0) { vf_fail("a range whose is_divisible() is false was split"); } };
 static void csolid(long c) { int part = c % 4; c /= 4; int P = 1 + c % 3; vtbb::init(P); int calls = 0; with_part(part, [&](auto& p) { tbb::parallel_for(Solid(0, 7), [&](const Solid& r) { calls++; if (r.b != 0 || r.e != 7) vf_fail("indivisible range changed"); }, p); }); vtbb::finish(); if (calls != 1) vf_fail("indivisible range: body called %d times", calls); vf_outcome("solid part=%d P=%d", part, P); }
 typedef void (*Fn)(long);
-static Fn fns[] = {c2d, c3d, cnd, chuge, cstr, cspan, c2dhuge, cfe, cinv, csolid};
+static Fn fns[] = {c2d, c3d, cnd, chuge, cstr, cspan, c2dhuge, covl, cfe, cinv, csolid};
 static void scenario(long c) { for (size_t i = 0; i < blocks.size(); i++) if (c < starts[i] + blocks[i].count) { fns[i](c - starts[i]); return; } }
 int main(int argc, char** argv) {
-    blocks = {{"2d", 4L * 3 * 5 * 5 * 4}, {"3d", 4L * 2 * 4 * 4 * 3}, {"nd", 4L * 2 * 4 * 4 * 2}, {"huge", 4L * 3 * 7 * 3}, {"strided", 2L * 4 * 4 * 9 * 4}, {"span", 2L * (9180 + 3 * 120)}, {"2dhuge", 4L * 3 * 8}, {"for_each", 3L * 2 * 6 * 3}, {"invoke", 3L * 9}, {"solid", 4L * 3}};
+    blocks = {{"2d", 4L * 3 * 5 * 5 * 4}, {"3d", 4L * 2 * 4 * 4 * 3}, {"nd", 4L * 2 * 4 * 4 * 2}, {"huge", 4L * 3 * 7 * 3}, {"strided", 2L * 4 * 4 * 9 * 4}, {"span", 2L * (9180 + 3 * 120)}, {"2dhuge", 4L * 3 * 8}, {"overloads", 3L * 30 * 7}, {"for_each", 3L * 2 * 6 * 3}, {"invoke", 3L * 9}, {"solid", 4L * 3}};
     long s = 0; for (auto& b : blocks) { starts.push_back(s); s += b.count; }
     return vf_main_cases(argc, argv, s, scenario);
 }
